@@ -208,39 +208,80 @@ def Ne(a, b):
 
 
 # ----------------------------------------------------------------- integers
+def _lin(t, k, acc):
+    """accumulate k*t into acc: {atom string: (coeff, atom term)}, constant under key None"""
+    if t.op == "#int":
+        acc[None] = acc.get(None, 0) + k * t.val
+    elif t.op == "+":
+        for a in t.args:
+            _lin(a, k, acc)
+    elif t.op == "-" and len(t.args) == 2:
+        _lin(t.args[0], k, acc)
+        _lin(t.args[1], -k, acc)
+    elif t.op == "-" and len(t.args) == 1:
+        _lin(t.args[0], -k, acc)
+    elif t.op == "*" and len(t.args) == 2 and t.args[0].op == "#int":
+        _lin(t.args[1], k * t.args[0].val, acc)
+    elif t.op == "*" and len(t.args) == 2 and t.args[1].op == "#int":
+        _lin(t.args[0], k * t.args[1].val, acc)
+    else:
+        key = str(t)
+        c, _ = acc.get(key, (0, t))
+        acc[key] = (c + k, t)
+
+
+def _build_lin(acc):
+    const = acc.pop(None, 0)
+    pos, neg = [], []
+    for key in sorted(acc):
+        c, t = acc[key]
+        if c == 0:
+            continue
+        term = t if abs(c) == 1 else T("*", (I(abs(c)), t), INT)
+        (pos if c > 0 else neg).append(term)
+    if not pos and not neg:
+        return I(const)
+    if pos:
+        res = pos[0] if len(pos) == 1 else T("+", pos, INT)
+    else:
+        res = None
+    for n in neg:
+        res = T("-", (n,), INT) if res is None else T("-", (res, n), INT)
+    if const > 0:
+        res = T("+", (res, I(const)), INT) if res.op != "+" else T("+", res.args + (I(const),), INT)
+    elif const < 0:
+        res = T("+", (res, I(const)), INT) if res.op != "+" else T("+", res.args + (I(const),), INT)
+    return res
+
+
 def Add(a, b):
-    if a.op == "#int" and b.op == "#int":
-        return I(a.val + b.val)
-    if a.op == "#int" and a.val == 0:
-        return b
-    if b.op == "#int" and b.val == 0:
-        return a
-    # (x + c1) + c2
-    if b.op == "#int" and a.op == "+" and len(a.args) == 2 and a.args[1].op == "#int":
-        return Add(a.args[0], I(a.args[1].val + b.val))
-    return T("+", (a, b), INT)
+    acc = {}
+    _lin(a, 1, acc)
+    _lin(b, 1, acc)
+    return _build_lin(acc)
 
 
 def Sub(a, b):
-    if a.op == "#int" and b.op == "#int":
-        return I(a.val - b.val)
-    if b.op == "#int":
-        return Add(a, I(-b.val))
-    if str(a) == str(b):
-        return I(0)
-    return T("-", (a, b), INT)
+    acc = {}
+    _lin(a, 1, acc)
+    _lin(b, -1, acc)
+    return _build_lin(acc)
 
 
 def Mul(a, b):
     if a.op == "#int" and b.op == "#int":
         return I(a.val * b.val)
+    if a.op == "#int" or b.op == "#int":
+        acc = {}
+        _lin(T("*", (a, b), INT), 1, acc)
+        return _build_lin(acc)
     return T("*", (a, b), INT)
 
 
 def Neg(a):
-    if a.op == "#int":
-        return I(-a.val)
-    return T("-", (a,), INT)
+    acc = {}
+    _lin(a, -1, acc)
+    return _build_lin(acc)
 
 
 def _cmp(op, pyop):
@@ -333,10 +374,27 @@ def Extract(x, start, n):
     return T("str.substr" if x.sort == STR else "seq.extract", (x, start, n), x.sort)
 
 
+def syn_nonneg(t):
+    """syntactically non-negative integer term (loop ghost indices, lengths, sums of those)"""
+    if t.op == "#int":
+        return t.val >= 0
+    if t.op == "#const":
+        return t.args[0].startswith("_i")
+    if t.op in ("str.len", "seq.len"):
+        return True
+    if t.op == "+":
+        return all(syn_nonneg(a) for a in t.args)
+    if t.op == "*":
+        return all(syn_nonneg(a) for a in t.args)
+    return False
+
+
 def norm_index(x, i):
     """python index normalisation: negative wraps once."""
     if i.op == "#int":
         return i if i.val >= 0 else Add(Len(x), i)
+    if syn_nonneg(i):
+        return i
     return Ite(Lt(i, I(0)), Add(Len(x), i), i)
 
 
@@ -345,7 +403,7 @@ def PySlice(x, a, b):
     n = Len(x)
     if a is None:
         lo = I(0)
-    elif a.op == "#int" and a.val >= 0:
+    elif (a.op == "#int" and a.val >= 0) or syn_nonneg(a):
         lo = a
     elif a.op == "#int":
         lo = Max(Add(n, a), I(0))
@@ -353,7 +411,7 @@ def PySlice(x, a, b):
         lo = Ite(Lt(a, I(0)), Max(Add(n, a), I(0)), a)
     if b is None:
         hi = n
-    elif b.op == "#int" and b.val >= 0:
+    elif (b.op == "#int" and b.val >= 0) or syn_nonneg(b):
         hi = b
     elif b.op == "#int":
         hi = Max(Add(n, b), I(0))
